@@ -903,4 +903,131 @@ theorem fillOpt_nil_of_run (S : Schema) (d : Dfa) (q : Nat) (after : List TypeId
   rw [fillBeforeTypes_nil_of_run S d q after r h]
   rfl
 
+/-! ### the pushed open end is coherent with the `close_node_start` image of the last node -/
+
+theorem withMarks_self (n : Node) : n.withMarks n.marks = n := by
+  cases n <;> rfl
+
+theorem types_cons_congr (S : Schema) (c c' : Node) (rest : List Node) (h : S.tyOf c' = S.tyOf c) :
+    S.types (c' :: rest) = S.types (c :: rest) := by
+  simp [Schema.types, h]
+
+theorem fappend_nil_left (b : List Node) : fappend [] b = b := by
+  unfold fappend
+  cases b <;> simp
+
+/-- **walking the last-child chain**: the entries `place_nodes` pushes for the open end of the last
+    placed node (read off the *slice's* node `ln`) are coherent with the children of its
+    `close_node_start` image `r` — `content_match_at(child_count)` succeeding means `fill_before`
+    added nothing in front (`fillOpt_nil_of_run`), and types are kept along the chain -/
+theorem pushOpenEnd_coh (S : Schema) (D g : Nat) (base : List FItem) : ∀ (n : Nat) (cur : List Node)
+    (fr0 fr' : List FItem) (ln : Node) (os' : Nat) (mk : Marks) (r : Node) (j : Nat),
+    pushOpenEnd S (n + 1) cur fr0 = .ok fr' → cur.getLast? = some ln → rspineOK (n + 1) [ln] →
+    closeNodeStart S os' (ln.withMarks mk) ((n + 1 : Nat) : Int) = .ok r → g < j →
+    ∃ pushed t a m kk, fr' = fr0 ++ pushed ∧ r = .elem t a m kk ∧ (∃ e rest, pushed = e :: rest ∧ e.ty = t) ∧
+      Coh S D g base j pushed kk
+  | n, cur, fr0, fr', ln, os', mk, r, j, hpush, hl, ⟨t, a, m0, kids, h1, h2⟩, himg, hg => by
+    simp only [List.getLast?_singleton, Option.some.injEq] at h1
+    subst h1
+    -- the entry pushed for `ln`
+    unfold pushOpenEnd at hpush
+    rw [hl] at hpush
+    simp only at hpush
+    obtain ⟨q, hq, hpush⟩ := FM.bind_ok hpush
+    have hq := liftRaise_ok hq
+    simp only [Schema.contentMatchAt, Node.kids, List.take_length, Schema.tyOf, Node.tyOr] at hq hpush
+    -- the image: its children are the node's children with the first one possibly closed, no fill in front
+    have himg' : ∃ kk, r = .elem t a mk kk ∧ S.types kk = S.types kids ∧
+        (∀ (ln2 : Node), kids.getLast? = some ln2 → ∀ n', n = n' + 1 →
+          ∃ os2 r2, kk.getLast? = some r2 ∧
+            closeNodeStart S os2 (ln2.withMarks ln2.marks) ((n' + 1 : Nat) : Int) = .ok r2) := by
+      cases os' with
+      | zero =>
+        have := pure_ok himg
+        subst this
+        refine ⟨kids, rfl, rfl, ?_⟩
+        intro ln2 hl2 n' _
+        exact ⟨0, ln2, hl2, by rw [withMarks_self]; rfl⟩
+      | succ os =>
+        simp only [Node.withMarks] at himg
+        unfold closeNodeStart at himg
+        simp only [Node.kids, Schema.tyOf, Node.tyOr] at himg
+        obtain ⟨frag, hfrag, himg⟩ := FM.bind_ok himg
+        obtain ⟨fill, hfill, himg⟩ := FM.bind_ok himg
+        obtain ⟨fill', hfill', himg⟩ := FM.bind_ok himg
+        obtain ⟨tail, htail, himg⟩ := FM.bind_ok himg
+        have := pure_ok himg
+        subst this
+        have htl : tail = [] := by
+          rw [if_neg (by omega)] at htail
+          exact (pure_ok htail).symm
+        subst htl
+        -- the fragment after the start was closed: same types, last node = image of the last node
+        have hf : S.types frag = S.types kids ∧
+            (∀ (ln2 : Node), kids.getLast? = some ln2 → ∀ n', n = n' + 1 →
+              ∃ os2 r2, frag.getLast? = some r2 ∧
+                closeNodeStart S os2 (ln2.withMarks ln2.marks) ((n' + 1 : Nat) : Int) = .ok r2) := by
+          by_cases hos : os = 0
+          · rw [if_pos hos] at hfrag
+            have := pure_ok hfrag
+            subst this
+            refine ⟨rfl, ?_⟩
+            intro ln2 hl2 n' _
+            exact ⟨0, ln2, hl2, by rw [withMarks_self]; rfl⟩
+          · rw [if_neg hos] at hfrag
+            cases kids with
+            | nil => simp [throw, throwThe, MonadExceptOf.throw] at hfrag
+            | cons c rest =>
+              simp only at hfrag
+              obtain ⟨c', hc', hfrag⟩ := FM.bind_ok hfrag
+              have := pure_ok hfrag
+              subst this
+              refine ⟨types_cons_congr S c c' rest (closeNodeStart_tyOf S os c _ c' hc'), ?_⟩
+              intro ln2 hl2 n' hn'
+              cases rest with
+              | nil =>
+                simp only [List.getLast?_singleton, Option.some.injEq] at hl2
+                subst hl2
+                simp only [List.length_singleton, beq_self_eq_true, if_true] at hc'
+                subst hn'
+                have e : ((n' + 1 + 1 : Nat) : Int) - 1 = ((n' + 1 : Nat) : Int) := by omega
+                rw [e] at hc'
+                exact ⟨os, c', rfl, by rw [withMarks_self]; exact hc'⟩
+              | cons y ys =>
+                rw [List.getLast?_cons_cons] at hl2
+                exact ⟨0, ln2, by rw [List.getLast?_cons_cons]; exact hl2, by rw [withMarks_self]; rfl⟩
+        -- nothing is filled in front: the children match as they are
+        have hfill0 : fill' = [] := by
+          rw [hf.1] at hfill
+          rw [fillOpt_nil_of_run S _ 0 _ q hq] at hfill
+          simp only [Except.ok.injEq] at hfill
+          subst hfill
+          exact (pure_ok hfill').symm
+        subst hfill0
+        refine ⟨frag, ?_, hf.1, hf.2⟩
+        simp only [Node.withKids, fappend_nil_left]
+        have e : ∀ x : List Node, fappend x [] = x := fun x => rfl
+        rw [e]
+    obtain ⟨kk, hr, hty, hnext⟩ := himg'
+    have hlevel : LevelOK S D g base j ⟨t, some q⟩ kk := by
+      refine ⟨⟨0, q, ?_, rfl, ?_⟩, fun h0 => by omega⟩
+      · unfold cohStart; rw [if_neg (by omega)]
+      · unfold cohKids; rw [if_neg (by omega), hty]; exact hq
+    cases n with
+    | zero =>
+      have := pure_ok hpush
+      subst this
+      exact ⟨[⟨t, some q⟩], t, a, mk, kk, rfl, hr, ⟨_, _, rfl, rfl⟩, hlevel, trivial⟩
+    | succ n' =>
+      obtain ⟨t2, a2, m2, k2, hl2, hs2⟩ := h2
+      obtain ⟨os2, r2, hkl, himg2⟩ := hnext _ hl2 n' rfl
+      obtain ⟨pushed', t3, a3, m3, kk3, e1, e2, ⟨e0, rest0, e3, e4⟩, e5⟩ :=
+        pushOpenEnd_coh S D g base n' kids _ fr' (.elem t2 a2 m2 k2) os2 m2 r2 (j + 1) hpush hl2
+          ⟨t2, a2, m2, k2, rfl, hs2⟩ himg2 (by omega)
+      refine ⟨⟨t, some q⟩ :: pushed', t, a, mk, kk, by rw [e1]; simp, hr, ⟨_, _, rfl, rfl⟩, hlevel, ?_⟩
+      rw [e3]
+      simp only
+      rw [e2] at hkl
+      exact ⟨t3, a3, m3, kk3, hkl, e4.symm, by rw [← e3]; exact e5⟩
+
 end PM
